@@ -2442,7 +2442,10 @@ int string_case_compare (parse_node_t ** c1, parse_node_t ** c2) {
   p1 = (i1 ? PROG_STRING (i1) : 0);
   p2 = (i2 ? PROG_STRING (i2) : 0);
 
-  return (int)(p1 - p2);
+  /* the difference of two pointers does not fit the int result; f_switch() compares them as intptr_t */
+  if (p1 == p2)
+    return 0;
+  return ((intptr_t) p1 < (intptr_t) p2) ? -1 : 1;
 }
 
 void prepare_cases (parse_node_t * pn, size_t start) {
